@@ -42,7 +42,11 @@ func init() {
 		name := h.n
 		DeclareUF(name+"inv", []Sort{SStr}, SStr, nil)
 		DeclareUF(name, []Sort{SStr}, SStr, func(a *Term) []*Term {
-			return []*Term{Eq(App(name+"inv", a), a.Args[0])}
+			out := []*Term{Eq(App(name+"inv", a), a.Args[0])}
+			if a.Args[0].IsConst() { // digests of constants are the real ones
+				out = append(out, Eq(a, MkStr(realHash(name, a.Args[0].SV))))
+			}
+			return out
 		})
 		ufFixedLen[name] = h.l
 	}
@@ -106,7 +110,8 @@ func init() {
 	reg("strings.HasSuffix", func(c *CallCtx, a []Value) []Outcome { return ret1(SuffixOf(a[1].(*Term), a[0].(*Term))) })
 	reg("strings.TrimSuffix", func(c *CallCtx, a []Value) []Outcome {
 		s, suf := a[0].(*Term), a[1].(*Term)
-		return ret1(Ite(SuffixOf(suf, s), Substr(s, MkI(0), Sub(Len(s), Len(suf))), s))
+		has := c.E.decide(c.S, SuffixOf(suf, s))
+		return ret1(Ite(has, Substr(s, MkI(0), Sub(Len(s), Len(suf))), s))
 	})
 	reg("strings.TrimPrefix", func(c *CallCtx, a []Value) []Outcome {
 		s, p := a[0].(*Term), a[1].(*Term)
@@ -363,18 +368,20 @@ func hexT(t *Term) *Term {
 	return App("hex", t)
 }
 
-func hashT(alg string, t *Term) *Term {
-	if t.IsConst() {
-		switch alg {
-		case "H256":
-			d := sha256.Sum256([]byte(t.SV))
-			return MkStr(string(d[:]))
-		case "H3_512":
-			d := sha3.Sum512([]byte(t.SV))
-			return MkStr(string(d[:]))
-		}
+// hashT: hashes stay applications of the injective function also for constant inputs (their value is
+// pinned to the real digest by an axiom), so that injectivity holds between constants and symbols.
+func hashT(alg string, t *Term) *Term { return App(alg, t) }
+
+func realHash(alg, in string) string {
+	switch alg {
+	case "H256":
+		d := sha256.Sum256([]byte(in))
+		return string(d[:])
+	case "H3_512":
+		d := sha3.Sum512([]byte(in))
+		return string(d[:])
 	}
-	return App(alg, t)
+	panic("realHash " + alg)
 }
 
 type hashState struct {
@@ -405,6 +412,10 @@ func intrSplit(c *CallCtx, a []Value) []Outcome {
 	}
 	if !sep.IsConst() || sep.SV == "" {
 		throwf("strings.Split with symbolic/empty separator")
+	}
+	// a concatenation whose symbolic parts provably do not contain the separator splits deterministically
+	if pieces, ok := splitConcat(c, s, sep.SV); ok {
+		return ret1(mkSlice(c.S, pieces))
 	}
 	// decompose a concat at constant separators where pieces are known sep-free
 	var outs []Outcome
@@ -442,6 +453,38 @@ func intrSplit(c *CallCtx, a []Value) []Outcome {
 	c.E.Bounds["strings.Split.pieces"] = SplitMax
 	c.E.mu.Unlock()
 	return outs
+}
+
+func splitConcat(c *CallCtx, s *Term, sep string) ([]*Term, bool) {
+	ps := parts(s)
+	if len(ps) == 0 {
+		return []*Term{MkStr("")}, true
+	}
+	var pieces []*Term
+	cur := []*Term{}
+	for _, p := range ps {
+		if p.IsConst() {
+			segs := strings.Split(p.SV, sep)
+			for i, sg := range segs {
+				if i > 0 {
+					pieces = append(pieces, Concat(cur...))
+					cur = []*Term{}
+				}
+				cur = append(cur, MkStr(sg))
+			}
+			continue
+		}
+		if c.E.decide(c.S, Contains(p, MkStr(sep))) != TFalse {
+			return nil, false
+		}
+		cur = append(cur, p)
+	}
+	pieces = append(pieces, Concat(cur...))
+	// a multi-character separator could straddle two parts: only single characters are handled exactly
+	if len(sep) != 1 {
+		return nil, false
+	}
+	return pieces, true
 }
 
 // splitMoreThan: s contains at least n occurrences of sep: s = p0 sep p1 sep ... sep pn (pieces arbitrary)
